@@ -639,6 +639,10 @@ class Interp:
 
     def s_For(self, st, env, mod, fn):
         it = self.eval(st.iter, env, mod)
+        from . import modeb
+        n = modeb.loop_length(it)
+        if n is not None and is_sym(sym.concretize(n)):
+            return self._for_with_invariant(st, env, mod, fn, it, n)
         for x in self.iterate(it):
             self.assign(st.target, x, env, mod)
             try:
@@ -647,6 +651,46 @@ class Interp:
                 return
             except _Continue:
                 continue
+        self.exec_block(st.orelse, env, mod, fn)
+
+    def _for_with_invariant(self, st, env, mod, fn, it, n):
+        """mode b: the loop is cut at the inductive invariant registered for (function, loop ordinal); see modeb.py"""
+        from . import modeb
+        if fn is None:
+            raise SymError("loop over a symbolic length outside a function")
+        loops = [x for x in ast.walk(fn.node) if isinstance(x, (ast.For, ast.While))]
+        loops.sort(key=lambda x: (x.lineno, x.col_offset))
+        ordinal = [i for i, x in enumerate(loops) if x is st][0]
+        key = (f"{fn.module.name}:{fn.qualname}", ordinal)
+        spec = self.world.loop_invariants.get(key)
+        if spec is None:
+            raise SymError(f"loop #{ordinal} of {key[0]} runs over a symbolic length and has no invariant")
+        inv, modifies = spec["inv"], spec["modifies"]
+        ctx = self.world.ctx
+        n = sym.to_arith(n)
+        look = lambda name: env.lookup(name)
+        for name in modifies:
+            env.vars[name] = modeb.abstract_value(name, env.lookup(name))
+        branch = self.path.choose(2)
+        if branch == 0:
+            ctx.ensure(inv(look, 0), f"loop invariant of {key[0]}#{ordinal} holds on entry")
+            for name in modifies:
+                env.vars[name] = modeb.havoc_value(name, env.lookup(name))
+            k = modeb.fresh("k", z3.IntSort())
+            ctx.assume(z3.And(k >= 0, k < n), "loop: 0 <= k < n")
+            ctx.assume(inv(look, k), "loop: invariant at k (induction hypothesis)")
+            self.assign(st.target, modeb.loop_item(it, k), env, mod)
+            try:
+                self.exec_block(st.body, env, mod, fn)
+            except _Continue:
+                pass
+            except _Break:
+                return                      # leaves the loop with the state reached in this iteration
+            ctx.ensure(inv(look, k + 1), f"loop invariant of {key[0]}#{ordinal} is preserved")
+            raise modeb.PathEnd()
+        for name in modifies:
+            env.vars[name] = modeb.havoc_value(name, env.lookup(name))
+        ctx.assume(inv(look, n), "loop: invariant at exit")
         self.exec_block(st.orelse, env, mod, fn)
 
     def s_Break(self, st, env, mod, fn):
@@ -1214,6 +1258,17 @@ class Interp:
         return IFunc(e, env, mod, "<lambda>", defaults, [], False)
 
     def e_ListComp(self, e, env, mod):
+        if len(e.generators) == 1 and not e.generators[0].ifs:
+            from . import modeb
+            base = self.eval(e.generators[0].iter, env, mod)
+            if isinstance(base, modeb.SymSeq):
+                g = e.generators[0]
+
+                def getter(idx, base=base, g=g):
+                    en = Env(env)
+                    self.assign(g.target, base.at(idx), en, mod)
+                    return self.eval(e.elt, en, mod)
+                return modeb.SymSeq(base.length, getter=getter, name="comp")
         out = []
         self._comp(e.generators, 0, Env(env), mod, lambda en: out.append(self.eval(e.elt, en, mod)))
         return out
